@@ -221,13 +221,30 @@ func init() {
 
 	// ---- misc environment ----
 	Stubs["math/rand.NewSource"] = func(ex *Exec, c *CallCtx) []*callResult {
-		return c.ret(IfaceV{T: ex.ptrType("math/rand", "rngSource"), V: &OpaqueV{Kind: "rngSource"}})
+		seed, _ := c.Args[0].(*term.Term)
+		return c.ret(IfaceV{T: ex.ptrType("math/rand", "rngSource"), V: &OpaqueV{Kind: "rngSource", Data: seed}})
 	}
 	Stubs["math/rand.New"] = func(ex *Exec, c *CallCtx) []*callResult {
-		return c.ret(PtrV{Obj: c.St.H.Alloc(&OpaqueV{Kind: "rand.Rand"})})
+		var seed *term.Term
+		if iv, ok := c.Args[0].(IfaceV); ok {
+			if ov, ok := iv.V.(*OpaqueV); ok {
+				seed, _ = ov.Data.(*term.Term)
+			}
+		}
+		obj := c.St.H.Alloc(&OpaqueV{Kind: "rand.Rand", Data: seed})
+		// a generator created while the harness runs (package initialisers run before, their events are dropped)
+		ex.Events = append(ex.Events, Event{Kind: "newgen", Obj: fmt.Sprint(obj), Site: ex.posOf(c.Site), Seed: seed})
+		return c.ret(PtrV{Obj: obj})
 	}
 	Stubs["(*math/rand.Rand).Int63"] = func(ex *Exec, c *CallCtx) []*callResult {
 		ex.Events = append(ex.Events, Event{Kind: "access", Obj: "rand.Rand", Site: ex.posOf(c.Site)})
+		if p, ok := c.Args[0].(PtrV); ok && p.Obj != 0 {
+			var seed *term.Term
+			if ov, ok := c.St.H.Load(p).(*OpaqueV); ok {
+				seed, _ = ov.Data.(*term.Term)
+			}
+			ex.Events = append(ex.Events, Event{Kind: "draw", Obj: fmt.Sprint(p.Obj), Site: ex.posOf(c.Site), Seed: seed, Guard: c.St.G})
+		}
 		var v *term.Term
 		if ex.Concrete != nil {
 			ex.randN++
@@ -238,6 +255,13 @@ func init() {
 		}
 		g := term.And(c.St.G, term.Eq(term.Extract(v, 63, 63), term.Const(1, 0)))
 		return []*callResult{{G: g, H: c.St.H, Ret: v, Panics: c.St.Panics}}
+	}
+	Stubs["(*sync.Mutex).TryLock"] = func(ex *Exec, c *CallCtx) []*callResult {
+		// whether another goroutine holds the mutex is the scheduler's choice: an arbitrary boolean
+		ex.tryN++
+		b := ex.input(fmt.Sprintf("trylock%d", ex.tryN), term.BoolSort, "sync.Mutex.TryLock")
+		ex.Events = append(ex.Events, Event{Kind: "trylock", Obj: fmt.Sprint(c.Args[0].(PtrV).Obj), Site: ex.posOf(c.Site)})
+		return c.ret(b)
 	}
 	Stubs["(*sync.Mutex).Lock"] = func(ex *Exec, c *CallCtx) []*callResult {
 		ex.Events = append(ex.Events, Event{Kind: "lock", Obj: fmt.Sprint(c.Args[0].(PtrV).Obj), Site: ex.posOf(c.Site)})
